@@ -851,8 +851,8 @@ class Generator:
                 if pending.strip():
                     emit_line(pending, pending_src)
                 pending, pending_src = '', None
+                emit_clauses('invariant_except_break', spec['invariant_except_break'], '            ')   # Verus wants this clause first
                 emit_clauses('invariant', inv, '            ')
-                emit_clauses('invariant_except_break', spec['invariant_except_break'], '            ')
                 emit_clauses('ensures', spec['ensures'], '            ')
                 if spec['decreases']:
                     out.emit('            decreases ' + ', '.join(spec['decreases']) + ',', dict(kind='decreases', fn=fn.qual))
